@@ -291,7 +291,7 @@ def classify(got, exp):
 
 
 def run(ctx):
-    for i in ctx.indices(1000 if ctx.tier == 'quick' else 25000, 'random'):
+    for i in ctx.indices(4000 if ctx.tier == 'quick' else 25000, 'random'):
         one(ctx, i)
 
 
